@@ -372,3 +372,67 @@ Proof.
     intros He1 Hc1. destruct (F1 He1) as [Hx|[Hcl [[_ Hb]|[Hr _]]]]; [contradiction| |discriminate Hr].
     rewrite Hb. apply clean_Rs. exact Hcl.
 Qed.
+
+(* ---------- the theorem ---------- *)
+Lemma result_R old c c' p n : R old c c' -> result_of c (p + n) = prepend (rev old) p (result_of c' n).
+Proof.
+  intros (_ & (_ & Hco) & He & _). unfold result_of. rewrite <- He, Hco, rev_app_distr. destruct (c_err c); reflexivity.
+Qed.
+
+Lemma has_obj_code c : has_obj c = false <-> code (c_p c) = [].
+Proof. unfold has_obj. destruct (code (c_p c)); cbn; split; intros H; try reflexivity; discriminate H. Qed.
+
+Lemma scan_one_decompose T esc : forall text s pos s' p,
+  s_scan T esc true s text pos = (s', p) -> c_err (s_core s) = None -> has_obj (s_core s) = false ->
+  c_err (s_core s') = None -> has_obj (s_core s') = true ->
+  exists pre b rest, text = pre ++ b :: rest /\ s' = s_step T esc (s_run T esc s pre) b /\ p = stop_pos b (pos + length pre) /\
+                     c_err (s_core (s_run T esc s pre)) = None /\ has_obj (s_core (s_run T esc s pre)) = false.
+Proof.
+  induction text as [|b text IH]; intros s pos s' p Hscan He Ho He' Ho'; cbn [s_scan] in Hscan.
+  - injection Hscan as <- <-. rewrite Ho in Ho'. discriminate Ho'.
+  - destruct (c_err (s_core (s_step T esc s b))) eqn:E.
+    + injection Hscan as <- <-. rewrite E in He'. discriminate He'.
+    + cbn [andb] in Hscan. destruct (has_obj (s_core (s_step T esc s b))) eqn:Eo.
+      * injection Hscan as <- <-. exists [], b, text. cbn. rewrite Nat.add_0_r. repeat split; assumption.
+      * destruct (IH _ _ _ _ Hscan E Eo He' Ho') as (pre & b' & rest & -> & -> & -> & Hx & Hy).
+        exists (b :: pre), b', rest. cbn [app length]. unfold s_run in *. cbn [fold_left].
+        repeat split; try assumption. f_equal. lia.
+Qed.
+
+Theorem one_then_rest T esc text s' p :
+  table_ok T = true -> table_ok2 T = true -> table_ok3 T = true ->
+  s_scan T esc true s0 text 0 = (s', p) -> c_err (s_core s') = None -> has_obj (s_core s') = true ->
+  s_read_gen T esc true text = ROk (rev (code (c_p (s_core s')))) p /\
+  s_read T esc text = prepend (rev (code (c_p (s_core s')))) p (s_read T esc (skipn p text)).
+Proof.
+  intros H1 H2 H3 Hscan He' Ho'. split.
+  { unfold s_read_gen, s_read_from. rewrite Hscan. unfold stopped. rewrite He', Ho'. cbn. unfold result_of. rewrite He'. reflexivity. }
+  destruct (scan_one_decompose T esc text s0 0 s' p Hscan eq_refl eq_refl He' Ho') as (pre & b & rest & -> & -> & -> & Hem & Hom).
+  set (sm := s_run T esc s0 pre) in *.
+  apply has_obj_code in Hom.
+  assert (Hc' : code (c_p (s_core (s_step T esc sm b))) <> []).
+  { intros Hx. apply has_obj_code in Hx. rewrite Hx in Ho'. discriminate Ho'. }
+  pose proof (stop_step T esc sm b H1 H2 H3 Hem Hom He' Hc') as HRs.
+  set (old := code (c_p (s_core (s_step T esc sm b)))) in *.
+  (* the reader that kept going, and the reader restarted at the reported position *)
+  assert (Hwhole : s_run T esc s0 (pre ++ b :: rest) = s_run T esc (s_step T esc sm b) rest).
+  { unfold s_run, sm. rewrite fold_left_app. reflexivity. }
+  assert (Hrest : s_run T esc s0 (skipn (stop_pos b (0 + length pre)) (pre ++ b :: rest)) =
+                  s_run T esc (if bump b then s0 else s_step T esc s0 b) rest).
+  { unfold stop_pos. fold (bump b). cbn [plus]. destruct (bump b).
+    - replace (S (length pre)) with (length (pre ++ [b])) by (rewrite app_length; cbn; lia).
+      replace (pre ++ b :: rest) with ((pre ++ [b]) ++ rest) by (rewrite <- app_assoc; reflexivity).
+      rewrite skipn_app, skipn_all, Nat.sub_diag. reflexivity.
+    - rewrite skipn_app, skipn_all, Nat.sub_diag. reflexivity. }
+  pose proof (run_R T esc old H1 H2 rest _ _ HRs) as HRrun.
+  set (q := stop_pos b (0 + length pre)) in *.
+  assert (Hq : q <= length (pre ++ b :: rest)).
+  { unfold q, stop_pos. rewrite app_length. cbn. destruct (_ || _); lia. }
+  unfold s_read. rewrite Hwhole, Hrest.
+  set (sa := s_run T esc (s_step T esc sm b) rest) in *. set (sb := s_run T esc (if bump b then s0 else s_step T esc s0 b) rest) in *.
+  pose proof HRrun as [HRc _]. pose proof HRc as (_ & _ & Hee & _). rewrite <- Hee.
+  destruct (c_err (s_core sa)) eqn:Ea.
+  - unfold result_of. rewrite <- Hee, Ea. cbn. destruct HRc as (_ & (_ & Hco) & _). rewrite Hco, rev_app_distr. reflexivity.
+  - replace (length (pre ++ b :: rest)) with (q + length (skipn q (pre ++ b :: rest))) by (rewrite skipn_length; lia).
+    apply result_R. apply finish_R. exact HRrun.
+Qed.
